@@ -487,6 +487,16 @@ func (p2pHarness) Gen(seed uint64, prop, tier string) *simkit.Program {
 			add("set", idx, 0, 0, 0, xs(set))
 			continue
 		}
+		if r.P(0.03) {
+			// a flood of forged requests naming one guardian (no key needed for that), then that
+			// guardian's genuine request: what was dropped must not have left anything behind
+			g := int64(set[r.Intn(len(set))])
+			for k := 0; k < 25+r.Intn(10); k++ {
+				add("req", g, int64(r.Intn(64))<<8, int64([]int{2, 5, 7, 13}[r.Intn(4)]), int64(r.Intn(1<<16)), "")
+			}
+			add("req", g, int64(r.Intn(64))<<8, 0, 0, "")
+			continue
+		}
 		signer := int64(set[r.Intn(len(set))])
 		if r.P(0.15) {
 			signer = int64(r.Intn(nKeys)) // possibly a non-member (also former members after a rotation)
